@@ -599,6 +599,14 @@ type sockSess struct {
 	mu             sync.Mutex
 }
 
+func (ss *sockSess) setErr(e string) { ss.mu.Lock(); ss.err = e; ss.mu.Unlock() }
+func (ss *sockSess) setDone()        { ss.mu.Lock(); ss.done = true; ss.mu.Unlock() }
+func (ss *sockSess) state() (bool, string) {
+	ss.mu.Lock()
+	defer ss.mu.Unlock()
+	return ss.done, ss.err
+}
+
 func (s *system) runSession(ss *sockSess, socksAddr string, deadline time.Duration) {
 	or := &orSession{tag: ss.tag, lenUp: ss.lenUp, lenDown: ss.lenDown}
 	s.or.mu.Lock()
@@ -606,7 +614,7 @@ func (s *system) runSession(ss *sockSess, socksAddr string, deadline time.Durati
 	s.or.mu.Unlock()
 	c, err := socksConnect(socksAddr)
 	if err != nil {
-		ss.err = "socks: " + err.Error()
+		ss.setErr("socks: " + err.Error())
 		return
 	}
 	defer c.Close()
@@ -682,17 +690,17 @@ func (s *system) runSession(ss *sockSess, socksAddr string, deadline time.Durati
 		case e := <-werr:
 			wOK = true
 			if e != nil {
-				ss.err = "write: " + e.Error()
+				ss.setErr("write: " + e.Error())
 				return
 			}
 		case e := <-rerr:
 			rOK = true
 			if e != nil {
-				ss.err = "read: " + e.Error()
+				ss.setErr("read: " + e.Error())
 				return
 			}
 		case <-timer:
-			ss.err = "watchdog"
+			ss.setErr("watchdog")
 			return
 		}
 	}
@@ -707,7 +715,7 @@ func (s *system) runSession(ss *sockSess, socksAddr string, deadline time.Durati
 		}
 		time.Sleep(50 * time.Millisecond)
 	}
-	ss.done = true
+	ss.setDone()
 }
 
 func (s *system) progress(ss *sockSess) uint64 {
@@ -728,7 +736,7 @@ func (s *system) waitProgress(ss *sockSess, delta uint64, d time.Duration) bool 
 	start := s.progress(ss)
 	end := time.Now().Add(d)
 	for time.Now().Before(end) {
-		if s.progress(ss) >= start+delta || ss.done || ss.err != "" {
+		if d, e := ss.state(); s.progress(ss) >= start+delta || d || e != "" {
 			return true
 		}
 		time.Sleep(100 * time.Millisecond)
